@@ -289,6 +289,33 @@ theorem canReduce_of_fixed (thrSq : K) (e : List K) (p : List (List K)) (hn : 2 
   rw [herr]
   simp
 
+/-- the squared Frobenius norm of `m - m` is the accumulator it started from -/
+theorem frob_fold_sub_self (m : List (List K)) (acc : K) :
+    (List.zipWith subRow m m).foldl (fun acc r => r.foldl (fun a x => a + x * x) acc) acc = acc := by
+  induction m generalizing acc with
+  | nil => rfl
+  | cons r rest ih =>
+    simp only [List.zipWith_cons_cons, List.foldl_cons, subRow]
+    rw [foldl_sq_sub_self r acc]
+    exact ih acc
+
+/-- a net every row of which is fixed by the projection is accepted for reduction -/
+theorem canReduce_of_fixed_nodes (thrSq : K) (nodes : List (List K)) (p : List (List K))
+    (hn : 2 ≤ ncols nodes) (hp : projectionMat (K := K) (ncols nodes) = some p)
+    (hfix : ∀ row ∈ nodes, rowMul row p = row) :
+    canReduce thrSq nodes = .ok true := by
+  unfold canReduce
+  simp only [hp]
+  rw [if_neg (by omega)]
+  have hm : matMul nodes p = nodes := by
+    unfold matMul
+    conv_rhs => rw [← List.map_id nodes]
+    exact List.map_congr_left (fun row hrow => hfix row hrow)
+  have herr : frobSq (List.zipWith subRow nodes (matMul nodes p)) = 0 := by
+    rw [hm]; unfold frobSq; exact frob_fold_sub_self nodes 0
+  rw [herr]
+  simp
+
 theorem canReduce_unsupported (thrSq : K) (nodes : List (List K)) (h : 5 < ncols nodes) :
     canReduce thrSq nodes = .error .unsupportedDegree := by
   unfold canReduce
